@@ -161,9 +161,16 @@ def dimLen? : List (Expr × Expr) → Option (Option Nat)
   | [(.num h, .num 0)] => some (some (h + 1))
   | _ => none
 
+/-- number of bits of a packed dimension `[h:0]`; floogen writes `[-1:0]` for a
+    zero-bit quantity, which SystemVerilog reads as the two-bit range -1..0 -/
+def dimBits? : Expr × Expr → Option Nat
+  | (.num h, .num 0) => some (h + 1)
+  | (.neg (.num h), .num 0) => some (h + 1)
+  | _ => none
+
 def enumOf? (base : TypeRef) (ms : List (String × Expr)) : Option EnumT := do
   let w ← match base.dims with
-    | [(.num h, .num 0)] => some (h + 1)
+    | [d] => dimBits? d
     | [] => some 1
     | _ => none
   let members ← ms.mapM fun (n, v) => do
@@ -194,13 +201,13 @@ def findParam (items : List Item) (name : String) : Option (TypeRef × Expr) :=
 /-- `logic [h:0]` ↦ h+1, `logic` ↦ 1 -/
 def logicBits? (t : TypeRef) : Option Nat :=
   match t.words, t.dims with
-  | ["logic"], [(.num h, .num 0)] => some (h + 1)
+  | ["logic"], [d] => dimBits? d
   | ["logic"], [] => some 1
   | _, _ => none
 
 def logicVecBits? (t : TypeRef) : Option Nat :=
   match t.words, t.dims with
-  | ["logic"], [(.num h, .num 0)] => some (h + 1)
+  | ["logic"], [d] => dimBits? d
   | _, _ => none
 
 def typeBits? (items : List Item) (name : String) : Option Nat :=
